@@ -3,6 +3,7 @@ package main
 import (
 	"bytes"
 	"fmt"
+	"time"
 
 	"golang.org/x/text/language"
 
@@ -109,10 +110,22 @@ func opWidthsPDF(f *sfnt.Font) []any { return []any{f.WidthsPDF()} }
 
 func opWidthsMapPDF(f *sfnt.Font) []any { return []any{f.WidthsMapPDF()} }
 
+// scanStart picks where a per-glyph query loop starts (the loop wraps around): concurrent calls ask
+// for different glyphs at the same time, the returned value does not depend on it.  (The clock is
+// used because it involves no synchronisation between goroutines.)
+func scanStart(n int) int {
+	if n <= 0 {
+		return 0
+	}
+	return int(time.Now().UnixNano()>>4) % n
+}
+
 func opGlyphWidths(f *sfnt.Font) []any {
 	n := f.NumGlyphs()
 	a, b := make([]float64, n), make([]float64, n)
-	for i := 0; i < n; i++ {
+	s := scanStart(n)
+	for k := 0; k < n; k++ {
+		i := (s + k) % n
 		a[i] = f.GlyphWidth(glyph.ID(i))
 		b[i] = f.GlyphWidthPDF(glyph.ID(i))
 	}
@@ -122,17 +135,23 @@ func opGlyphWidths(f *sfnt.Font) []any {
 func opGlyphBBoxes(f *sfnt.Font) []any { return []any{f.GlyphBBoxes()} }
 
 func opGlyphBBox(f *sfnt.Font) []any {
-	var res []any
-	for i := 0; i < f.NumGlyphs(); i++ {
-		res = append(res, f.GlyphBBox(glyph.ID(i)))
+	n := f.NumGlyphs()
+	res := make([]any, n)
+	s := scanStart(n)
+	for k := 0; k < n; k++ {
+		i := (s + k) % n
+		res[i] = f.GlyphBBox(glyph.ID(i))
 	}
 	return res
 }
 
 func opGlyphBBoxPDF(f *sfnt.Font) []any {
-	var res []any
-	for i := 0; i < f.NumGlyphs(); i++ {
-		res = append(res, f.Outlines.GlyphBBoxPDF(f.FontMatrix, glyph.ID(i)))
+	n := f.NumGlyphs()
+	res := make([]any, n)
+	s := scanStart(n)
+	for k := 0; k < n; k++ {
+		i := (s + k) % n
+		res[i] = f.Outlines.GlyphBBoxPDF(f.FontMatrix, glyph.ID(i))
 	}
 	return res
 }
